@@ -57,7 +57,8 @@ def gen_cases(tier, seed, ctx):
         add('overlong', b + b'tail' * 10, 'vrc'); add('overlong', b + b'tail' * 10, 'drc')
         # all chunks fine but the data checksum wrong (re-sealed header)
         y = copy.deepcopy(z); y.data_digest = bytes(len(y.data_digest) - 1) + b'\x01'
-        for ops in ('v', 'd', 'vrc', 'f'): add('bad-data-checksum', y.build(), ops)
+        # (single validations, and the data-checksum validation AFTER scans / reads that marked every chunk valid)
+        for ops in ('v', 'd', 'vrc', 'f', 'fd', 'vd', 'rd', 'vfd', 'rfd', 'fdd', 'dfd', 'rvd'): add('bad-data-checksum', y.build(), ops)
         # detached header with the dictionary chunk appended: only the dictionary is scanned
         y = copy.deepcopy(z); y.detached = True
         hb = y.header()
